@@ -1148,6 +1148,14 @@ def _end_model_construction(model):
                 # in metamodel.obj and remove them from this dict.
                 attrs = obj.__class__._tx_obj_attrs.pop(id(obj))
 
+                # The root object is not contained: a `parent` found here
+                # was attached by user code. Like any other additional
+                # attribute it stays on the object but is not passed on
+                # to __init__.
+                if obj is model and "parent" in attrs:
+                    with suppress(Exception):
+                        setattr(obj, "parent", attrs.pop("parent"))
+
                 # First try to apply attributes directly. It might
                 # not be possible for some (e.g. __slots__ are used)
                 for name, value in attrs.items():
